@@ -48,11 +48,11 @@ GUARD_FS = 'static void event_processing_reset_dtor(_Bool* flag){@1}\n'
 def xfm(throwers=(), guards=None):
     return back_xform(['is_composite', 'has_completion_transitions'], refparams=(), members=['m_running', 'm_event_processing', 'm_history', 'm_active_state_ids'],
                       methods=['preprocess_entry', 'postprocess_entry', 'process_event_pool'], enums=ENUMS, drop=DROP2, rewrites=MRW, throwers=throwers, exc_ret='', guards=guards)
-UNITS.append(Unit('backmp11.preprocess_entry', ['C04', 'C02', 'C13'], 'backmp11', Part(SB, [], 'void preprocess_entry ( Event const & event , Fsm & fsm )'),
-    'void preprocess_entry(fsm_t* self, event_t event, fsm_t* fsm)', 'cascade_mp11.spec.h', xform=xfm(['front_on_entry']), replay=['queue']))
+UNITS.append(Unit('backmp11.preprocess_entry', ['C04', 'C02', 'C03', 'C13'], 'backmp11', Part(SB, [], 'void preprocess_entry ( Event const & event , Fsm & fsm )'),
+    'void preprocess_entry(fsm_t* self, event_t event, fsm_t* fsm)', 'cascade_mp11.spec.h', xform=xfm(['front_on_entry']), replay=['queue', 'hist']))
 UNITS.append(Unit('backmp11.postprocess_entry', ['C04', 'C05', 'C13'], 'backmp11', Part(SB, [], 'void postprocess_entry ( )'),
     'void postprocess_entry(fsm_t* self)', 'cascade_mp11.spec.h', xform=xfm(), replay=['queue']))
-UNITS.append(Unit('backmp11.on_entry', ['C02', 'C04', 'C05', 'C08', 'C12', 'C13'], 'backmp11',
+UNITS.append(Unit('backmp11.on_entry', ['C02', 'C04', 'C05', 'C08', 'C12', 'C03', 'C13'], 'backmp11',
     [Part(SB, [], 'void on_entry ( Event const & event , Fsm & fsm )', xform=xfm(['preprocess_entry', 'm_history_on_entry_visit', 'postprocess_entry'], guards=GUARDS)), GUARD_DTOR],
     'void machine_on_entry(fsm_t* self, event_t event, fsm_t* fsm)', 'cascade_mp11.spec.h', compose='@0', file_scope=GUARD_FS, replay=['queue', 'hist', 'exc']))
 UNITS.append(Unit('backmp11.on_exit', ['C02', 'C08', 'C07', 'C13'], 'backmp11', Part(SB, [], 'void on_exit ( Event const & event , Fsm & fsm )'),
@@ -64,7 +64,7 @@ UNITS.append(Unit('backmp11.on_state_entry_completed', ['C10', 'C13'], 'backmp11
         dict(name='CONT-push-front-make', pat='event_pool . events . push_front ( processable_event :: make ( completion_event_occurrence < State > { region_id } ) ) ;', rep='pool_push_front_completion ( self , region_id ) ;', min=1, max=1)]),
     replay=['queue']))
 def gnt(_): return [X.T('g_nt')]
-UNITS.append(Unit('backmp11.on_explicit_entry', ['C09', 'C08', 'C02', 'C04', 'C12', 'C13'], 'backmp11', [Part(SB, [], 'void on_explicit_entry ( Event const & event , Fsm & fsm )',
+UNITS.append(Unit('backmp11.on_explicit_entry', ['C09', 'C08', 'C02', 'C04', 'C12', 'C03', 'C13'], 'backmp11', [Part(SB, [], 'void on_explicit_entry ( Event const & event , Fsm & fsm )',
     xform=back_xform(['get_state_id', 'get_state'], refparams=(), members=['m_history', 'm_active_state_ids', 'm_event_processing'], methods=['preprocess_entry', 'postprocess_entry'],
         enums=ENUMS, drop=DROP2, foreach=True, size_of=gnt, throwers=['preprocess_entry', 'visitor_call_state', 'visit_active_entry2', 'postprocess_entry'], exc_ret='', guards=GUARDS,
         pre_rewrites=[dict(name='TVAR-identities', pat='using state_identities = $*A ;', rep='', min=1, max=1),
